@@ -33,7 +33,8 @@ From PV Require Import C03.Names C03.Decls.
 Open Scope string_scope. Open Scope list_scope.
 Inductive case :=
 | CV (c : list sym * bool)                                   (* hand-built order, gfortran accepts *)
-| CG (c : list sym * option (list nat) * list sym * bool).   (* table, observed order, table with lenient refs, gfortran accepts *)
+| CG (c : list sym * option (list nat) * list sym * bool)    (* table, observed order, table with lenient refs, gfortran accepts *)
+| CW (c : (list string * list sym * list (list sym)) * option (list string)).  (* nested scopes, declared names of the written routine *)
 Definition by_order (t : list sym) (o : list nat) : list sym :=
   flat_map (fun n => filter (fun d => Nat.eqb (s_id d) n) t) o.
 Definition agrees (c : case) : bool :=
@@ -42,19 +43,26 @@ Definition agrees (c : case) : bool :=
   | CG (t, obs, tl, acc) =>
       agrees_decls (t, obs) &&
       match obs with Some o => Bool.eqb (decl_valid (by_order tl o)) acc | None => true end
+  | CW ((o, r, i), obs) => match write_decls o r i, obs with
+                           | Some l, Some n => list_str_eqb (map s_name l) n
+                           | None, None => true
+                           | _, _ => false
+                           end
   end."""
 
 PRELUDE = "module extmod\n  implicit none\n" + "".join("  integer, parameter :: s%d = 4\n" % i for i in range(12)) + "end module extmod\n"
 
 WHAT = {
-    "gen_decls/const-before-var": "a parameter whose initial value inquires about a variable (kind(v), size(v)) is declared "
+    "gen_decls/const-before-var/inquiry": "a parameter whose initial value inquires about a variable (kind(v), size(v)) is declared "
                                   "before the variable (gen_decls writes all parameters first)",
-    "gen_decls/const-before-arg": "a parameter whose initial value inquires about a dummy argument is declared before it",
-    "gen_decls/const-before-const": "_gen_parameter_decls ignores array bounds and inquiry arguments when ordering parameters: "
-                                    "a parameter is declared before the parameter its bound / inquiry uses",
-    "gen_decls/arg-before-type": "a dummy argument of a derived type defined in the same routine is declared before the type "
+    "gen_decls/const-before-arg/inquiry": "a parameter whose initial value inquires about a dummy argument is declared before it",
+    "gen_decls/const-before-const/bound": "_gen_parameter_decls ignores array bounds when ordering parameters: "
+                                          "a parameter is declared before the parameter its bound uses",
+    "gen_decls/const-before-const/inquiry": "_gen_parameter_decls ignores the argument of inquiry intrinsics when ordering "
+                                            "parameters: a parameter is declared before the parameter it inquires about",
+    "gen_decls/arg-before-type/type": "a dummy argument of a derived type defined in the same routine is declared before the type "
                                  "(arguments are section 3, derived types section 4)",
-    "gen_decls/const-before-type": "a parameter of a derived type defined in the same scope is declared before the type",
+    "gen_decls/const-before-type/type": "a parameter of a derived type defined in the same scope is declared before the type",
     "reader/derived-type-bound-becomes-component": "reading 'type t; real :: c(n); end type' with n a parameter of the same scope "
                                                    "adds a bogus component 'integer :: n' to the type (derived types are processed "
                                                    "before the other declarations); the written type does not compile",
@@ -96,6 +104,22 @@ def line_cat(lines, idx):
     return "var"
 
 
+def text_relation(line, name):
+    """How a declaration line uses a name: inquiry / bound / type / kind / literal-kind / value."""
+    n = re.escape(name)
+    if re.search(r"\b(kind|size|lbound|ubound|shape|bit_size|len|huge|tiny|epsilon|precision|range|digits)\s*\(\s*%s\b" % n, line, re.I):
+        return "inquiry"
+    if re.search(r"\btype\s*\(\s*%s\s*\)" % n, line, re.I):
+        return "type"
+    if re.search(r"\bkind\s*=\s*%s\b" % n, line, re.I):
+        return "kind"
+    if re.search(r"_%s\b" % n, line, re.I) and re.search(r"[0-9.]_%s\b" % n, line, re.I):
+        return "literal-kind"
+    if re.search(r"dimension\s*\([^)]*\b%s\b" % n, line.split("::")[0], re.I) or re.search(r"::\s*\w+\s*\([^)]*\b%s\b" % n, line, re.I):
+        return "bound"
+    return "value"
+
+
 def classify_compile(text, errs, origin):
     """Key of a compile failure of written code: gen_decls/<user>-before-<used>, undeclared/<origin>,
     duplicate/<origin>, or other."""
@@ -111,20 +135,30 @@ def classify_compile(text, errs, origin):
         i = ln - 1
         a, b = unit_of(lines, i)
         if cls in ("undeclared", "misordered") and name:
-            later = None
-            for k in range(i + 1, b + 1):
-                if re.search(r"::\s*%s\b" % re.escape(name), lines[k], re.I) and not lines[k].strip().lower().startswith(("public", "private")):
-                    later = k
+            tok = re.compile(r"(?<![\w%%])%s\b" % re.escape(name), re.I)
+            decl = None
+            for k in range(a, b + 1):
+                low = lines[k].strip().lower()
+                if low.startswith(("public", "private", "use ")):
+                    continue
+                if re.search(r"::\s*%s\b" % re.escape(name), lines[k], re.I) or \
+                        re.match(r"\s*type\s*(,\s*(public|private)\s*)?::\s*%s\b" % re.escape(name), lines[k], re.I):
+                    decl = k
                     break
-                if re.match(r"\s*type\s*(,\s*(public|private)\s*)?::\s*%s\b" % re.escape(name), lines[k], re.I):
-                    later = k
-                    break
-            if later is not None:
-                keys.append("gen_decls/%s-before-%s" % (line_cat(lines, i), line_cat(lines, later)))
+            if decl is not None:
+                user = None
+                for k in range(a + 1, decl):
+                    if "::" in lines[k] and tok.search(lines[k]) and not lines[k].strip().lower().startswith(("public", "private")):
+                        user = k
+                        break
+                if user is not None:
+                    keys.append("gen_decls/%s-before-%s/%s" % (line_cat(lines, user), line_cat(lines, decl),
+                                                               text_relation(lines[user], name)))
+                else:
+                    keys.append("compile/undeclared-but-declared-earlier" if decl < i else "compile/" + cls)
                 continue
             if cls == "undeclared":
-                earlier = any(re.search(r"::\s*%s\b" % re.escape(name), lines[k], re.I) for k in range(a, i))
-                keys.append("undeclared/" + origin if not earlier else "compile/undeclared-but-declared-earlier")
+                keys.append("undeclared/" + origin)
                 continue
         if cls == "duplicate":
             keys.append("duplicate/" + origin)
@@ -234,9 +268,16 @@ def run(ctx):
 
     # ------------------------------------------------------------------ spec + tables streams
     units, meta, cases = [], [], []
-    nt = ctx.pick(120, 2500)
-    for i in range(nt):
-        spec = gen.gen_table_spec(rng, cyc=0.0, compilable=True)
+    nt = ctx.pick(100, 2500)
+    def ent(name, cat, **kw):
+        e = dict(name=name, cat=cat, deps=[], kind=None, litkind=None, shape=[], inq=[], typ=None)
+        e.update(kw)
+        return e
+    # witnesses of the API-only findings, replayed on every run (Coq: C04_decls_ordered_refuted_shape)
+    fixed = [[ent("s0", "const", deps=["s2"]), ent("s1", "const", shape=["s0"]), ent("s2", "const")],
+             [ent("s0", "const", deps=["s2"]), ent("s1", "const", inq=["s0"]), ent("s2", "const")]]
+    for i in range(nt + len(fixed)):
+        spec = fixed[i] if i < len(fixed) else gen.gen_table_spec(rng, cyc=0.0, compilable=True)
         table, _ = gen.build_table(spec, compilable=True)
         syms = table.symbols
         by = {e["name"]: e for e in spec}
@@ -291,13 +332,44 @@ def run(ctx):
                 off = first_offence(by, names, None)
                 key = classify_compile(unit, [(None, m) for m in errs], "gen_decls")
                 if off:
-                    key = "gen_decls/%s-before-%s" % (by[off[0]]["cat"], by[off[1]]["cat"])
+                    key = "gen_decls/%s-before-%s/%s" % (by[off[0]]["cat"], by[off[1]]["cat"], off[2])
                 report(key, "gen_decls output rejected by gfortran: " + errs[0],
                        {"stream": "tables", "spec": spec, "written": unit, "gfortran": errs[:3],
                         "first_use_before_declaration(user, used, how)": off,
                         "replay": "build the table with props/C03/gen.py build_table(spec, compilable=True); FortranWriter().gen_decls(table); gfortran -fimplicit-none -fsyntax-only"})
     ctx.sample({"table_unit": units[1] if len(units) > 1 else None})
     ctx.log("spec/tables streams: %d units compiled, failing=%d" % (len(units), fails))
+
+    # ------------------------------------------------------------------ nested scopes (merge_no_capture)
+    nested_cases, nested_info = [], []
+    for i in range(ctx.pick(25, 500)):
+        cont, rout = gen.gen_nested(rng)
+        enc = gen.nested_case(cont, rout)
+        try:
+            w = FortranWriter()(cont)
+            names = gen.declared_names(gen.routine_decl_block(w, "sub"))
+            obs = "Some " + core.coq_list(core.coq_str(x) for x in names)
+        except Exception as e:      # pylint: disable=broad-except
+            ctx.hist("nested", "writer:" + type(e).__name__)
+            # the model never fails on these inputs (no constant cycles): a writer failure while
+            # merging scopes is reported through the correspondence below
+            w, names, obs = None, None, "None"
+        nested_cases.append("CW (%s, %s)" % (enc, obs))
+        nested_info.append({"written": w, "declared": names})
+        if w is None:
+            continue
+        okn, en = progs.gfortran(ctx.scratch, "nested", w)
+        renamed = any("_" in n and n.rsplit("_", 1)[1].isdigit() for n in names)
+        ctx.hist("nested", "compiles" if okn else "rejected")
+        ctx.count(("nested", w), renamed)
+        if not okn:
+            key = classify_compile(w, en, "scope-merge")
+            if is_decl_key(key):
+                report(key, "routine with merged inner scopes does not compile: " + en[0][1],
+                       {"stream": "nested", "written": w, "gfortran": en[:3]})
+            else:
+                ctx.hist("compile_errors_not_about_declarations", "nested|" + key)
+    ctx.log("nested scopes done, failing=%d" % fails)
 
     # ------------------------------------------------------------------ corpus of witnesses
     for f in sorted((HERE / "corpus").glob("*.f90")):
@@ -315,7 +387,7 @@ def run(ctx):
             report(key, "re-written file does not compile: " + e1[0][1], {"stream": "corpus", "file": str(f), "written": w1, "gfortran": e1[:3]})
 
     # ------------------------------------------------------------------ transformed programs
-    npg = ctx.pick(20, 400)
+    npg = ctx.pick(14, 400)
     for i in range(npg):
         src, _mod = progs.gen_program(rng, i)
         try:
@@ -359,6 +431,7 @@ def run(ctx):
                 inc = infra[1]
         else:
             files = [f for f in files if standalone_candidate(f)]
+            files = ctx.rng("files").sample(files, min(10, len(files)))
         nfile_ok = 0
         for f in files:
             try:
@@ -401,6 +474,8 @@ def run(ctx):
             shutil.rmtree(infra[0], ignore_errors=True)
 
     # ------------------------------------------------------------------ model evaluation
+    n_tab = len(coq_cases)
+    coq_cases += nested_cases
     bad = ctx.coq_eval_failing(HEADER, "case", "agrees", coq_cases, shard=ctx.pick(4000, 2500))
     ctx.cov["disagreements_checked"] = len(bad)
     ctx.log("model cases=%d disagreements=%d failing inputs=%d" % (len(coq_cases), len(bad), fails))
@@ -408,8 +483,12 @@ def run(ctx):
         first = None
         if bad:
             i = bad[0]
-            first = {"relation": "decl_valid = gfortran verdict (CV) / gen_decls order and verdict (CG)",
-                     "kind": meta[i][0], "spec": meta[i][2], "order": meta[i][3], "unit": units[i], "gfortran_errors": res[i][:3]}
+            if i < n_tab:
+                first = {"relation": "decl_valid = gfortran verdict (CV) / gen_decls order and verdict (CG)",
+                         "kind": meta[i][0], "spec": meta[i][2], "order": meta[i][3], "unit": units[i], "gfortran_errors": res[i][:3]}
+            else:
+                first = {"relation": "write_decls (scope merge + order) = declared names of the routine written by routine_node",
+                         "case": coq_cases[i], "impl": nested_info[i - n_tab]}
         ctx.violation({"property": "C04", "broken": "proof obligations of Properties/C04.v" if not ok else "model correspondence",
                        "proof_report": rep if not ok else None, "first_differing_case": first, "n_differing": len(bad)},
                       no_input=True)
